@@ -15,6 +15,8 @@ import NutsModel.C06.Shelf
 import NutsProofs.Lemmas.C06Shelf
 import NutsModel.C06.Create
 import NutsProofs.Lemmas.C06Create
+import NutsModel.C06.Late
+import NutsProofs.Lemmas.C06Late
 
 namespace Nuts.C06.Props
 open Nuts Nuts.C06
@@ -870,5 +872,134 @@ example : (parse srcCfg (fun _ => true) (signHdr ⟨7, "a/b", [5, 9], some ["QUJ
   rfl
 
 end Creation
+
+section Round2
+open Nuts.C06.Late Ex
+
+/-! ### Deepening round 2: the `payloadEvents` shelf, `handleTransactionPayload` / `WritePayload`, `state.Verify` -/
+
+/-- **The state with the marker shelf refines the state without it**: `Add` with the `payloadEvents` bookkeeping does to
+    every other shelf, digest, job and notification exactly what `add` does, with the same result — every theorem above
+    about `add` holds for the code with the marker. -/
+theorem add_with_marker_refines_add (env : Env) (subs : List Sub) (sp : StP) (tx : Tx) (p : Option Nat) :
+    (addP env subs sp tx p).1.st = (add env subs sp.st tx p).1 ∧ (addP env subs sp tx p).2 = (add env subs sp.st tx p).2 :=
+  addP_st env subs sp tx p
+
+/-- the marker moves only on admission, and then exactly when a payload came with the transaction -/
+theorem marker_set_iff_admitted_with_payload (env : Env) (subs : List Sub) (sp : StP) (tx : Tx) (p : Option Nat) :
+    (addP env subs sp tx p).1 = sp ∨
+    ((addP env subs sp tx p).2 = .ok () ∧ Admitted env sp.st tx p (addP env subs sp tx p).1.st ∧
+     (addP env subs sp tx p).1.pev = if p.isSome then markPayloadEventSaved sp.pev tx.ref else sp.pev) :=
+  addP_cases env subs sp tx p
+
+/-- the first late payload of a transaction (marker not set, ref not empty) is `latePayload` of the abstract layer -/
+theorem first_late_payload_refines (env : Env) (subs : List Sub) (sp : StP) (ref p : Nat) (hr : ref ≠ 0)
+    (hm : isPayloadEventSaved sp.pev ref = false) :
+    (handlePayload env subs sp ref (some p)).1.st = (latePayload env subs sp.st ref p).1 ∧
+    (handlePayload env subs sp ref (some p)).2 = (latePayload env subs sp.st ref p).2 := by
+  unfold handlePayload latePayload
+  simp only [hr, if_false]
+  cases hf : sp.st.find ref with
+  | none => exact ⟨rfl, rfl⟩
+  | some tx =>
+    simp only
+    have href : tx.ref = ref := (findTx_some_ref hf).1
+    by_cases hs : env.sha p ≠ tx.payloadHash
+    · rw [if_pos hs, if_pos hs]; exact ⟨rfl, rfl⟩
+    · have hs' : env.sha p = tx.payloadHash := by simpa using hs
+      rw [if_neg hs, if_neg hs]
+      simp only [writePayload, href, hm, Bool.false_eq_true, if_false, hs']
+      exact ⟨trivial, trivial⟩
+
+/-- **Re-delivering a payload changes nothing and notifies no-one.** Once a payload message for `ref` was accepted,
+    ANY further payload message for that ref — same bytes, other bytes, no bytes — leaves the whole state (payload store,
+    job shelves, receiver ledger, marker shelf) identical. -/
+theorem payload_redelivery_changes_nothing (env : Env) (subs : List Sub) (sp : StP) (ref : Nat) (d d' : Option Nat)
+    (h : (handlePayload env subs sp ref d).2 = "ok") :
+    (handlePayload env subs (handlePayload env subs sp ref d).1 ref d').1 = (handlePayload env subs sp ref d).1 :=
+  handlePayload_marked (handlePayload_ok h).2.2.2 d'
+
+/-- **A payload that came with its transaction blocks every late payload for it**: after an admission with payload no
+    payload message for that transaction changes anything or notifies anyone. -/
+theorem payload_with_transaction_blocks_late_payload (env : Env) (subs : List Sub) (sp : StP) (tx : Tx) (q : Nat)
+    (d : Option Nat) (h : (addP env subs sp tx (some q)).1 ≠ sp) :
+    (handlePayload env subs (addP env subs sp tx (some q)).1 tx.ref d).1 = (addP env subs sp tx (some q)).1 := by
+  rcases addP_cases env subs sp tx (some q) with h0 | ⟨_, _, hp⟩
+  · exact (h h0).elim
+  · apply handlePayload_marked
+    rw [hp]
+    exact mark_contains _ _
+
+/-- **A refused payload message leaves no trace.** -/
+theorem refused_payload_no_trace (env : Env) (subs : List Sub) (sp : StP) (ref : Nat) (d : Option Nat)
+    (h : (handlePayload env subs sp ref d).2 ≠ "ok") : (handlePayload env subs sp ref d).1 = sp := by
+  unfold handlePayload at h ⊢
+  split
+  · rfl
+  · split
+    · rfl
+    · split
+      · rfl
+      · split
+        · rfl
+        · rename_i hr _ _ _ tx hf hs
+          simp only [hr, hf, hs, if_false] at h
+          exact (h rfl).elim
+
+/-- **Marker invariant over ALL histories** of offers (with or without payload) and payload messages, from the empty store:
+    every marker belongs to a stored transaction, and a payload for the hash that transaction declares is in the payload store
+    (so "nothing to do" in `WritePayload` never hides a payload the node does not have). -/
+theorem payload_marker_inv (cfg : Cfg) (b64 : String → Bool) (env : Env) (subs : List Sub) (ops : List Op) :
+    PevInv (runOps cfg b64 env subs {} ops) :=
+  pevInv_run cfg b64 env subs ops {} (by intro r hr; cases hr)
+
+/-- **`state.Verify` accepts every reachable store.** After ANY sequence of offers, the loop of `Verify` over any list of
+    stored transactions (in particular the range scan `findBetweenLC(0, MaxLamportClock)`, which by
+    `find_between_lc_reads_every_stored_tx` returns all of them) ends without error: every stored transaction passes the prevs
+    verifier and the signature verifier against the WHOLE store. -/
+theorem verify_accepts_every_reachable_state (cfg : Cfg) (b64 : String → Bool) (env : Env) (subs : List Sub) (os : List Offer) :
+    let s := os.foldl (offerStep cfg b64 env subs) {}
+    ∀ scan : List Tx, (∀ t ∈ scan, t ∈ s.txs) → verifyEach env s scan = .ok () := by
+  have hinv : ∀ (os : List Offer) (s : St), Inv env s → Inv env (os.foldl (offerStep cfg b64 env subs) s) := by
+    intro os
+    induction os with
+    | nil => intro s h; exact h
+    | cons o t ih =>
+      intro s h
+      simp only [List.foldl_cons]
+      apply ih
+      unfold offerStep offer
+      split
+      · exact inv_add h
+      · exact h
+      · exact h
+  intro s scan hs
+  have hi : Inv env s := hinv os {} (inv_empty env)
+  exact verifyEach_ok_iff.mpr (fun t ht => verify_stored hi.chain (hs t ht))
+
+/-- … and it is sound: a nil result means every scanned transaction passes both verifiers (first error wins otherwise) -/
+theorem verify_ok_means_every_scanned_tx_verifies (env : Env) (s : St) (scan : List Tx) :
+    verifyEach env s scan = .ok () ↔ ∀ t ∈ scan, verify env s t = .ok () := verifyEach_ok_iff
+
+
+/-! non-vacuity: the sibling is private-like here (offered WITHOUT payload), the payload arrives later, twice -/
+def sp2 : StP := { st := s2, pev := [12, 11] }
+def sp3 : StP := (addP env subs sp2 sibling none).1
+example : sp3.st.txs = [sibling, child, root] ∧ sp3.pev = [12, 11] := by decide
+example : (handlePayload env subs sp3 13 (some 3)).2 = "ok" ∧ (handlePayload env subs sp3 13 (some 3)).1.pev = [13, 12, 11] ∧
+    (handlePayload env subs sp3 13 (some 3)).1.st.ledger = sp3.st.ledger ++ [⟨"nats", .payload, 13⟩] := by decide
+example : handlePayload env subs (handlePayload env subs sp3 13 (some 3)).1 13 (some 3) = ((handlePayload env subs sp3 13 (some 3)).1, "ok") := by
+  decide
+example : (handlePayload env subs sp3 13 (some 9)).2 = "err:payload-mismatch" ∧ (handlePayload env subs sp3 13 none).2 = "err:no-data" ∧
+    (handlePayload env subs sp3 0 (some 3)).2 = "err:no-ref" ∧ (handlePayload env subs sp3 77 (some 3)).2 = "err:unknown-tx" := by decide
+/-- admitted WITH its payload: the marker is set by `Add`, a late payload is a no-op -/
+example : (addP env subs sp2 sibling (some 3)).1.pev = [13, 12, 11] ∧ (addP env subs sp2 sibling (some 3)).1 ≠ sp2 ∧
+    handlePayload env subs (addP env subs sp2 sibling (some 3)).1 13 (some 3) = ((addP env subs sp2 sibling (some 3)).1, "ok") := by decide
+example : isPayloadEventSaved sp3.pev 13 = false ∧ (13 : Nat) ≠ 0 := by decide
+/-- `Verify`: the reachable store passes; a transaction written past the verifiers (wrong clock) is reported -/
+example : verifyEach env s2 s2.txs = .ok () := by decide
+example : verifyEach env { s2 with txs := mk 15 3 [12] 105 true "" :: s2.txs } (mk 15 3 [12] 105 true "" :: s2.txs) = .err "clock" := by decide
+
+end Round2
 
 end Nuts.C06.Props
